@@ -11,7 +11,12 @@
      correspondence check evaluates -- and R are instances (C16_carriers).
    * "Run to convergence" is taken as the property states it: the theorems say what the returned point
      satisfies when the stopping test has fired (k < maxit); that the iterations do converge is NOT proved.
-   * LA.norm(.)**2 is modelled as the exact sum of squares; tol, abstol, gradtol >= 0. *)
+   * LA.norm(.)**2 is modelled as the exact sum of squares; tol, abstol, gradtol >= 0.
+   * "The solver object": every model function here (cgls_solve, pcgls_solve, fista_solve, lm_solve, the wrapper
+     translations) is a pure function of the values A/fwd/adj, b, x0, shift, P, proximal, stepsize, maxit, tol, ... --
+     i.e. the theorems read a solver object as the attribute VALUES it holds when solve() is called, with no memory of
+     how it was constructed or of earlier solves.  The harness checks exactly that reading (HISTORY cells: solve twice,
+     re-assign each public attribute between solves, two objects sharing arrays -- result identical to a fresh solver). *)
 From CV Require Import Base.Tac Base.LinAlg Base.Cmp Base.QcLin Model.C16_Solve
      Proofs.C16_CG Proofs.C16_Prox Proofs.C16_Wrap Proofs.C16_Spec Proofs.C16_Grad Proofs.C16_Mono Proofs.C16_LMfull.
 From Coq Require Import Reals QArith Qcanon Ring.
